@@ -19,6 +19,8 @@ import EudoxiaModel.Proofs.PoolExample
 import EudoxiaModel.Proofs.GatesSusp
 import EudoxiaModel.Proofs.PrioMulti
 import EudoxiaModel.Proofs.PrioMultiExample
+import EudoxiaModel.Proofs.FreshWorlds
+import EudoxiaModel.Proofs.HypCheck
 /-! # C08 — shipped schedulers decide admissibly, and the closed loop of scheduler and executor runs to the end without raising
 
 `partial`.  Proved for every world and queue state: one round of `priority` / `priority-pool` asks each pool for no more CPU and RAM than the pool has free
@@ -333,6 +335,72 @@ theorem priority_multi_operator_tick_never_raises (w : World) (st : Prio.St) (cs
 theorem priority_multi_theorem_applies_to_a_concrete_world (n : Nat) :
     ∃ out, Prio.loop (NaiveExample.world true) {} [] ([0] :: List.replicate n []) = .ok out :=
   PrioMultiExample.runs n
+
+
+/-! ### from every fresh world: any configuration, any pools, any registered workload of well-formed pipelines, any arrivals
+
+`freshWorld cfg store pipes caps` is a world in which nothing has been started: the pools `caps` are empty, the pipelines `pipes` are registered in the operator
+table `store`.  "Well-formed" is: each pipeline lists existing operators once (`WFP`), each operator has a segment (`SegsOK`) and knows its pipeline (`PidOK`),
+the listing is topological (`Topo`); the pipelines that will arrive (`arrivals.flatten`) arrive once, are non-empty and untouched.  Under exactly these
+hypotheses every shipped scheduler runs to the last tick. -/
+
+theorem priority_multi_operator_runs_from_every_fresh_world (cfg : Cfg) (store : Store) (pipes : Array PipeInfo) (caps : List (Nat × Nat))
+    (arrivals : List (List Nat)) (hm : cfg.multiOp = true) (ho : cfg.overcommit = false) (hq : 0 < cfg.q)
+    (wf : (freshWorld cfg store pipes caps).WFP) (hs : (freshWorld cfg store pipes caps).SegsOK) (hp : (freshWorld cfg store pipes caps).PidOK)
+    (ht : (freshWorld cfg store pipes caps).Topo) (hF : arrivals.flatten.Nodup)
+    (hfut : ∀ pid ∈ arrivals.flatten, (pipes.getD pid default).order ≠ [] ∧ ∀ o ∈ (pipes.getD pid default).order, store.stOf o = pending) :
+    ∃ out, Prio.loop (freshWorld cfg store pipes caps) {} [] arrivals = .ok out := by
+  obtain ⟨w', st', cs', js', h, _⟩ := PM.run_never_raises arrivals _ {} [] [] (PM.fresh_inv cfg store pipes caps _ hm ho hq wf hs hp ht hF hfut)
+  exact ⟨_, h⟩
+
+theorem priority_pool_multi_operator_runs_from_every_fresh_world (cfg : Cfg) (store : Store) (pipes : Array PipeInfo) (c0 c1 : Nat × Nat)
+    (arrivals : List (List Nat)) (hm : cfg.multiOp = true) (hq : 0 < cfg.q) (h0 : 0 < c0.1 ∧ 0 < c0.2) (h1 : 0 < c1.1 ∧ 0 < c1.2)
+    (wf : (freshWorld cfg store pipes [c0, c1]).WFP) (hs : (freshWorld cfg store pipes [c0, c1]).SegsOK) (hp : (freshWorld cfg store pipes [c0, c1]).PidOK)
+    (ht : (freshWorld cfg store pipes [c0, c1]).Topo) (hF : arrivals.flatten.Nodup)
+    (hfut : ∀ pid ∈ arrivals.flatten, (pipes.getD pid default).order ≠ [] ∧ ∀ o ∈ (pipes.getD pid default).order, store.stOf o = pending) :
+    ∃ out, PP.loop (freshWorld cfg store pipes [c0, c1]) {} [] arrivals = .ok out := by
+  obtain ⟨w', st', cs', h, _⟩ := PP.run_never_raises arrivals _ {} [] (PP.fresh_inv cfg store pipes c0 c1 _ hm hq h0 h1 wf hs hp ht hF hfut)
+  exact ⟨_, h⟩
+
+theorem priority_single_operator_runs_from_every_fresh_world (cfg : Cfg) (store : Store) (pipes : Array PipeInfo) (caps : List (Nat × Nat))
+    (arrivals : List (List Nat)) (hm : cfg.multiOp = false) (ho : cfg.overcommit = false) (hq : 0 < cfg.q)
+    (wf : (freshWorld cfg store pipes caps).WFP) (hs : (freshWorld cfg store pipes caps).SegsOK) (hp : (freshWorld cfg store pipes caps).PidOK)
+    (hn : ∀ newP ∈ arrivals, newP.Nodup) :
+    ∃ out, Prio.loop (freshWorld cfg store pipes caps) {} [] arrivals = .ok out := by
+  obtain ⟨w', st', res', h, _⟩ := Prio.run_single_never_raises arrivals _ {} [] hn (Prio.fresh_inv_single cfg store pipes caps hm ho hq wf hs hp)
+  exact ⟨_, h⟩
+
+theorem overbook_runs_from_every_fresh_world (cfg : Cfg) (store : Store) (pipes : Array PipeInfo) (caps : List (Nat × Nat))
+    (arrivals : List (List Nat)) (ho : cfg.overcommit = true) (hc : ∀ c ∈ caps, 0 < c.2)
+    (wf : (freshWorld cfg store pipes caps).WFP) (hs : (freshWorld cfg store pipes caps).SegsOK) :
+    ∃ out, Overbook.loop (freshWorld cfg store pipes caps) {} [] arrivals = .ok out := by
+  obtain ⟨w', st', res', h, _⟩ := Overbook.run_never_raises arrivals _ {} [] (Overbook.fresh_inv cfg store pipes caps ho hc wf hs)
+  exact ⟨_, h⟩
+
+/-- naive with single-operator containers — also the starter scheduler written by `eudoxia init` -/
+theorem naive_single_operator_runs_from_every_fresh_world (cfg : Cfg) (store : Store) (pipes : Array PipeInfo) (caps : List (Nat × Nat))
+    (arrivals : List (List Nat)) (hm : cfg.multiOp = false)
+    (wf : (freshWorld cfg store pipes caps).WFP) (hs : (freshWorld cfg store pipes caps).SegsOK) :
+    ∃ out, Naive.loop (freshWorld cfg store pipes caps) {} [] arrivals = .ok out :=
+  Naive.run_never_raises arrivals _ {} [] (fresh_world_ready _ _ _ _) wf hs hm
+
+/-- naive with multi-operator containers (the default configuration) -/
+theorem naive_multi_operator_runs_from_every_fresh_world (cfg : Cfg) (store : Store) (pipes : Array PipeInfo) (caps : List (Nat × Nat))
+    (arrivals : List (List Nat)) (hm : cfg.multiOp = true) (inv : NaiveInv (freshWorld cfg store pipes caps)) :
+    ∃ out, Naive.loopM true (freshWorld cfg store pipes caps) {} [] arrivals = .ok out :=
+  Naive.run_multi_never_raises arrivals _ {} [] (fresh_world_ready _ _ _ _) inv (fun p hp => (fresh_nopool cfg store pipes caps p hp).2.1) hm
+
+/-- **the hypotheses about the workload are decidable, and are evaluated on every workload the correspondence check runs** (driver command `hyp`): if the five
+Boolean checks of `Model/Hyp.lean` pass on a world, the world's registered pipelines are well-formed in the sense of the theorems above and the pipelines `F`
+are distinct, non-empty and untouched -/
+theorem checked_hypotheses_are_the_theorems_hypotheses (w : World) (F : List Nat)
+    (h : (w.wfpB && w.segsB && w.pidB && w.topoB && w.futureB F) = true) :
+    w.WFP ∧ w.SegsOK ∧ w.PidOK ∧ w.Topo ∧ F.Nodup ∧
+      ∀ pid ∈ F, (w.pipes.getD pid default).order ≠ [] ∧ ∀ o ∈ (w.pipes.getD pid default).order, w.store.stOf o = pending := by
+  simp only [Bool.and_eq_true] at h
+  obtain ⟨⟨⟨⟨h1, h2⟩, h3⟩, h4⟩, h5⟩ := h
+  obtain ⟨f1, f2⟩ := futureB_sound w F h5
+  exact ⟨wfpB_sound w h1, segsB_sound w h2, pidB_sound w h3, topoB_sound w h4, f1, f2⟩
 
 /-- a fresh pool is ready (non-vacuity of the hypotheses above) -/
 theorem fresh_pool_ready (cfg : Cfg) (w : Store) (cpus ram : Nat) : PoolReadyF cfg w (Pool.fresh cpus ram) :=
